@@ -72,7 +72,7 @@ CLAIMED["C07"] = (
     "Every row of a pairwise (quick) / 3-wise (thorough) covering array of kernel x resampler x clustering x evaluation mode x boundary types x "
     "metric x zero-likelihood region x dimension is executed as a full run with a case seed; after resample, after mutate, at commit, on "
     "parallel_mcmc's return value and on everything sample()/posterior(16 option combinations)/results() return, each particle must satisfy "
-    "x == pt(u), logl == L(x), blob == b(x) exactly and u in [0,1]^d. Exactness is possible because the target is instrumented.",
+    "x == pt(u), logl == L(x), blob == b(x) exactly and u in [0,1]^d. Exactness is possible because the target is instrumented. A second check (*_full) applies the same oracle to complete random configurations from vlib.cfggen, in which every constructor option (all evaluation modes incl. two blobs, metric mode, cluster cadence and caps, odd particle counts, step limits, boundary index lists, pool kinds, extra likelihood arguments, integer / NumPy-integer / no random_state) gets a generated value in every case.",
     "Observation points are wrapped at run time (no source hooks); a refactor that removes them yields exit 2, not a violation.",
     "DESIGN.md §2 C07",
 )
@@ -82,7 +82,7 @@ CLAIMED["C12"] = (
     "After each generated run the postconditions (|1-beta|<1e-4, reference ESS of the reference weights >= n_total, evidence() == reference MIS "
     "evidence at beta=1) are checked, then posterior() is called with all 16 option combinations and seed-drawn trimming parameters: arity, equal "
     "lengths, probability weights, uniform weights after resampling, and row-by-row alignment of x/logl/blob (exact, instrumented target) and of "
-    "the log-weights (each equals the reference MIS log-weight of its own sample).",
+    "the log-weights (each equals the reference MIS log-weight of its own sample). A second check (*_full) applies the same oracle to complete random configurations from vlib.cfggen, in which every constructor option (all evaluation modes incl. two blobs, metric mode, cluster cadence and caps, odd particle counts, step limits, boundary index lists, pool kinds, extra likelihood arguments, integer / NumPy-integer / no random_state) gets a generated value in every case.",
     "Reference = vlib.refs (long double). The log-weight alignment relies on the MIS weight being a function of logl alone.",
     "DESIGN.md §2 C12",
 )
@@ -91,7 +91,7 @@ CLAIMED["C11"] = (
     "property-based testing (Hypothesis) of sampler runs on targets with a zero-likelihood half-space: hull invariant on every recorded warm-up evidence, no -inf stored anywhere; seeded ensembles with a two-stage t-test for the final evidence",
     "Supported fraction, warm-up length (ess_ratio), N, kernel and evaluation mode are generated; the instrumented likelihood counts finite/total "
     "per prior batch; every log-evidence recorded at beta=0 must lie in the range of the batch fractions seen so far (counted once), no stored "
-    "log-likelihood may be -inf, and the final evidence is tested against the analytic value over independently seeded runs.",
+    "log-likelihood may be -inf, and the final evidence is tested against the analytic value over independently seeded runs. A second check (*_full) applies the same oracle to complete random configurations from vlib.cfggen, in which every constructor option (all evaluation modes incl. two blobs, metric mode, cluster cadence and caps, odd particle counts, step limits, boundary index lists, pool kinds, extra likelihood arguments, integer / NumPy-integer / no random_state) gets a generated value in every case.",
     "A prior batch without any finite draw is outside the claim and skipped (counted). The ensemble part has a stated statistical resolution.",
     "DESIGN.md §2 C11",
 )
@@ -101,7 +101,7 @@ CLAIMED["C09"] = (
     "Generated sampler configurations are constructed and run twice with the same random_state inside one process with arbitrary global draws "
     "in between (bit-identical histories, weights, evidence required; a different random_state must change them). For every library operation "
     "named in the property the next global random number after the operation must depend on the seed set before it, and twin samplers whose "
-    "seeds diverge at a generated iteration index must produce different batches from then on.",
+    "seeds diverge at a generated iteration index must produce different batches from then on. A second check (*_full) applies the same oracle to complete random configurations from vlib.cfggen, in which every constructor option (all evaluation modes incl. two blobs, metric mode, cluster cadence and caps, odd particle counts, step limits, boundary index lists, pool kinds, extra likelihood arguments, integer / NumPy-integer / no random_state) gets a generated value in every case.",
     "Only numpy's global stream is observed (the library uses nothing else). Statistical independence itself is not decidable from samples; the mechanism that could couple runs is what is tested.",
     "DESIGN.md §2 C09",
 )
@@ -109,7 +109,7 @@ CLAIMED["C10"] = (
     "exploration",
     "property-based testing (Hypothesis): metamorphic relation between paired seeded runs with logL and logL+c",
     "For generated configurations, seeds and shifts c in +-[1e-3,1e3] the two runs must have the same number of iterations, temperatures, "
-    "particles (to 1e-12), call counts, ESS sequence and posterior weights, every recorded log-evidence must shift by beta_t*c and the final one by c.",
+    "particles (to 1e-12), call counts, ESS sequence and posterior weights, every recorded log-evidence must shift by beta_t*c and the final one by c. A second check (*_full) applies the same oracle to complete random configurations from vlib.cfggen, in which every constructor option (all evaluation modes incl. two blobs, metric mode, cluster cadence and caps, odd particle counts, step limits, boundary index lists, pool kinds, extra likelihood arguments, integer / NumPy-integer / no random_state) gets a generated value in every case.",
     "A mismatch is re-tested once with the neighbouring seed before it is reported (rounding can flip one accept/reject decision with probability ~1e-13|c|).",
     "DESIGN.md §2 C10",
 )
@@ -118,7 +118,7 @@ CLAIMED["C13"] = (
     "property-based testing (Hypothesis): differential between evaluation modes under one seed (scalar / vectorised / pool-like object with scripted completion order / pool=1 / real 2-worker pool) + exact call-count invariant at every commit",
     "Each generated case runs the same seeded sampler under every evaluation mode of its group with a pointwise bit-identical instrumented "
     "likelihood and compares full histories, weights and evidence bit for bit; at every commit the reported number of calls must equal the "
-    "number of points the instrumented likelihood has seen.",
+    "number of points the instrumented likelihood has seen. A second check (*_full) applies the same oracle to complete random configurations from vlib.cfggen, in which every constructor option (all evaluation modes incl. two blobs, metric mode, cluster cadence and caps, odd particle counts, step limits, boundary index lists, pool kinds, extra likelihood arguments, integer / NumPy-integer / no random_state) gets a generated value in every case.",
     "With a real worker pool evaluations happen in other processes; the count is then compared with the verified in-process twin.",
     "DESIGN.md §2 C13",
 )
@@ -150,8 +150,10 @@ CLAIMED["C05"] = (
     "Generated histories (realistic tempered families, perturbed evidences, adversarial non-monotone ESS curves; several beta=0 batches; ESS and "
     "volume-variation modes) are handed to the real Reweighter; the new temperature must satisfy 0<=beta-<=beta+<=1, the returned weights, the "
     "recorded evidence and the recorded ESS must all be the reference values at that same temperature, an advance in ESS mode must keep "
-    "ESS>=target and an advance in volume-variation mode must not pass every temperature with ESS>=target. The same oracle runs after each "
-    "Reweighter.run() of real sampler runs.",
+    "ESS>=target and an advance in volume-variation mode must not pass every temperature with ESS>=target. A third of the synthetic cases "
+    "replace the history of the SAME StateManager/Reweighter (import or load) by another one of the same extent and judge the next step on the "
+    "new history. The same oracle runs after each Reweighter.run() of real sampler runs, a third of which rewind the same sampler object to "
+    "an earlier checkpoint.",
     "Reference = vlib.refs; 'not beyond the ESS limit' is decided on beta+, the limit the code computed (when observable) and a 400-point grid.",
     "DESIGN.md §2 C05",
 )
@@ -191,8 +193,10 @@ CLAIMED["C03"] = (
 CLAIMED["C01"] = (
     "exploration",
     "seeded ensembles of full sampler runs on generated targets with quadrature-known truth; two-stage t-test with a finite-particle allowance (|mean error| <= t* s/sqrt(R) + 3 s^2) per standardised estimand; known-finding classification by kernel/folding/crossing rate",
-    "Cells (target family with generated parameters x kernel x resampler x clustering) are generated from VERIF_SEED, stratified over seven target "
-    "families (interior, wall-abutting, bimodal, periodic incl. seam-centred, reflective, exp-transformed prior, zero-likelihood slab); R "
+    "Cells (target family with generated parameters x kernel x resampler x clustering) are generated from VERIF_SEED, stratified over nine target "
+    "families (interior, wall-abutting, bimodal, periodic incl. seam-centred, reflective, exp-transformed prior, zero-likelihood slab, likelihood "
+    "1000x narrower than the prior, periodic next to wall-abutting) plus a large-N cell with a paired trimmed-vs-untrimmed test and a "
+    "volume-variation cell; kernel, clustering and resampler are drawn per family and complemented on the next pass; R "
     "independently seeded complete runs per cell give standardised errors of means, variances, marginal CDF, mode mass and circular moments for "
     "both the untrimmed and the default trimmed posterior() output; a systematic error beyond Monte-Carlo error plus an allowance that shrinks "
     "like 1/N is flagged, re-run with fresh seeds and twice the replicas, and only then reported. The claim is about the ensemble of seeds, which "
